@@ -575,7 +575,7 @@ func c13RPC(rep *vrep.Report, t *testing.T, n int) {
 		vmust(err)
 		var want []string
 		for _, e := range ms.OpLog().Values().Slice() {
-			if _, _, oerr := openMetadataEntry(ms.OpLog(), e, gc.Group()); oerr == nil {
+			if _, _, oerr := vOpenMetadataEntry(ms.OpLog(), e, gc.Group()); oerr == nil {
 				want = append(want, e.GetHash().String())
 			}
 		}
